@@ -989,7 +989,10 @@ func (e *Enc) ghostSymbol(g *GhostFunc) (string, string, error) {
 	if err != nil {
 		return "", "", fmt.Errorf("ghost %s: %v", g.Name, err)
 	}
-	if _, ok := e.declared[name]; ok {
+	if k, ok := e.declared[name]; ok {
+		if k == "ghost-pending" {
+			e.recGhost[name] = true
+		}
 		return name, rsort, nil
 	}
 	var psorts []string
@@ -1029,7 +1032,11 @@ func (e *Enc) ghostSymbol(g *GhostFunc) (string, string, error) {
 	}
 	e.declSort(rsort)
 	e.declared[name] = "fun"
-	e.emit("(define-fun " + name + " (" + strings.Join(binders, " ") + ") " + rsort + " " + b.L[0].T + ")")
+	kw := "define-fun"
+	if e.recGhost[name] {
+		kw = "define-fun-rec"
+	}
+	e.emit("(" + kw + " " + name + " (" + strings.Join(binders, " ") + ") " + rsort + " " + b.L[0].T + ")")
 	return name, rsort, nil
 }
 
